@@ -1,0 +1,29 @@
+//go:build verif
+
+// Contracts for the charging processor. Compiled only under the build tag "verif".
+
+package processor
+
+func verif_forall[T any](f func(T) bool) bool { return true }
+
+//@ func (*Processor).CloseCDR [C02 C11]
+//@   requires record != nil && record.ChargingFunctionRecord != nil
+//@   ensures result == nil && (partial ==> record.ChargingFunctionRecord.CauseForRecClosing.Value == 1) && (!partial ==> record.ChargingFunctionRecord.CauseForRecClosing.Value == 0)
+
+//@ func (*Processor).UpdateCDR [C02 C11]
+//@   requires record == nil || record.ChargingFunctionRecord != nil
+
+//@ func (*Processor).OpenCDR [C02 C11]
+//@   requires ue != nil
+
+//@ func dumpCdrFile [C03 C11]
+
+//@ func (*Processor).ChargingDataCreate [C10 C11 C12]
+
+//@ func (*Processor).ChargingDataUpdate [C10 C11 C12]
+
+//@ func (*Processor).ChargingDataRelease [C11 C12]
+
+//@ func sessionChargingReservation [C01 C06 C11]
+
+//@ func (*Processor).NotifyRecharge [C11 C12]
